@@ -920,7 +920,10 @@ def oracle_step(w, ref, op, obs):
 
 def oracle_case(case, collect=None):
     """ Run a stored case on the real code against the dict reference; returns list of (signature, what) """
-    w = Real(case)
+    try:
+        w = Real(case)
+    except Exception as e:
+        return [(dict(oracle='init-raises'), f"a minimal sim with {case['n0']} agents and the arrays {[a['name'] + ':' + a['type'] for a in case['arrays']]} cannot be initialised: {type(e).__name__}: {e}")]
     ref = Ref(w)
     fails = []
     # the initial state itself: defaults reached every agent
@@ -958,8 +961,14 @@ def search(ctx):
     nseq = ctx.budget(60, 500)
     for k in range(nseq):
         header = gen_case_header(ctx.rng)
-        w = Real(header); ref = Ref(w)
         case = header
+        try:
+            w = Real(header)
+        except Exception:
+            for sig, what in oracle_case(header):
+                ctx.fail(sig, what, dict(kind='opseq', case=header))
+            continue
+        ref = Ref(w)
         found = []
         for _ in range(36):
             op = gen_op(ctx.rng, w)
@@ -1002,8 +1011,12 @@ def shrink_to(case, sig):
 
 
 def replay(ctx, data):
+    from harness.framework import sig_match
     case = data.get('case', data)
     fails = oracle_case(case)
-    for sig, what in fails[:5]:
-        print(' ', sig, what)
-    return bool(fails)
+    new = [(s, w) for s, w in fails if not any(k['kind'] == 'finding' and sig_match(k['signature'], s) for k in ctx.known)]
+    for sig, what in fails[:8]:
+        print('  [known finding]' if (sig, what) not in new else '  [violation]', sig, what)
+    # a stored witness of a known finding still "fails"; anything else fails only through a non-listed signature
+    is_known_witness = any(k.get('replay', {}).get('case') == case for k in ctx.known)
+    return bool(new) or (is_known_witness and bool(fails))
